@@ -25,17 +25,23 @@ def gen_cases(rng, tier):
         norb = rng.randint(1, 3)
         variant = rng.choice(['both', 'alpha', 'beta', 'unrestricted'])
         nfac = rng.choice([0, 1, 2, 3])
+        real = rng.random() < 0.4        # real orthogonal matrices: Givens angles of either sign, no phases
+        if real:
+            nfac = rng.choice([1, 2, 3, 4])
         if variant == 'unrestricted':
             mode = 'sb'
             nn, sz = rng.randint(0, 2 * norb), 0
             if norb == 3:
                 nn = rng.choice([1, 2, 5])
-            G, d = c12.random_unitary(rng, 2 * norb, nfac)
+            G, d = c12.random_unitary(rng, 2 * norb, nfac, real=real)
         else:
             mode = 'ns'
             na, nb = rng.randint(0, norb), rng.randint(0, norb)
+            if norb >= 2 and rng.random() < 0.75:
+                # partially filled shells: on an empty or full shell a rotation is only a phase
+                na, nb = rng.randint(1, norb - 1), rng.randint(1, norb - 1)
             nn, sz = na + nb, na - nb
-            G, d = c12.random_unitary(rng, norb, nfac)
+            G, d = c12.random_unitary(rng, norb, nfac, real=real)
         keys = fqeio.sector_keys(norb, mode, nn, sz)
         cases.append({'kind': 'givens', 'variant': variant, 'norb': norb, 'mode': mode, 'n': nn, 'sz': sz,
                       'vec': fqeio.random_state(rng, norb, keys, density=0.8, amp=2),
@@ -61,7 +67,7 @@ def gen_cases(rng, tier):
         norb = rng.randint(2, 3)
         na, nb = rng.randint(0, norb), rng.randint(0, norb)
         L = rng.randint(1, 3)
-        us = [c12.random_unitary(rng, norb, rng.randint(0, 3)) for _ in range(L + 1)]
+        us = [c12.random_unitary(rng, norb, rng.randint(0, 3), real=rng.random() < 0.4) for _ in range(L + 1)]
         vs = [[[rng.choice([0, 1, -1, 2]) for _ in range(norb)] for _ in range(norb)] for _ in range(L)]
         cases.append({'kind': 'trotter', 'norb': norb, 'n': na + nb, 'sz': na - nb,
                       'us': [{'G': [[list(x) for x in row] for row in G], 'd': d} for G, d in us], 'vs': vs,
@@ -164,9 +170,13 @@ def run_impl(case, mode):
         for lam, h, D, B in zip(ev, obs, dd, bc):
             hs = h[::2, ::2]
             err_sq = max(err_sq, float(numpy.abs(B.conj().T @ B - numpy.eye(n)).max()))
-            w_, _ = numpy.linalg.eigh(hs)
-            # D should be lam * outer(w, w) for the eigenvalues w of hs in the basis B
-            diag = numpy.diag(B @ hs @ B.conj().T) if numpy.abs(numpy.diag(B @ hs @ B.conj().T)).sum() >= numpy.abs(numpy.diag(B.conj().T @ hs @ B)).sum() else numpy.diag(B.conj().T @ hs @ B)
+            # B must diagonalise hs (in one of the two orientations a basis change can be documented in) and
+            # D must be lam * outer(w, w) for the resulting diagonal w
+            M1, M2 = B @ hs @ B.conj().T, B.conj().T @ hs @ B
+            off = lambda M: float(numpy.abs(M - numpy.diag(numpy.diag(M))).max())
+            M = M1 if off(M1) <= off(M2) else M2
+            err_sq = max(err_sq, off(M))
+            diag = numpy.diag(M)
             err_sq = max(err_sq, float(numpy.abs(D - numpy.real(lam) * numpy.outer(diag, diag).real).max()))
         return {'err2': err2, 'err1': err1, 'err_sq': err_sq, 'nfac': int(len(ev)), 'dropped': dropped, 'scale': float(numpy.abs(tei).max())}
     raise ValueError(case['kind'])
